@@ -223,6 +223,10 @@ func C13(r *vf.Run) {
 		}
 
 		nAttach := 1 + g.Intn(40)
+		if g.Intn(12) == 0 {
+			nAttach = 150 + g.Intn(200)
+			cells["attach-count:many"]++
+		}
 		for ai := 0; ai < nAttach && !r.TooMany(); ai++ {
 			// choose a range
 			var sb, eb uint32
